@@ -109,7 +109,7 @@ class Gen(object):
         self.ids = defaultdict(list)  # container -> [name spec of identifiers used]
         self.derived_docs = []  # derived handles that are documents
         self.derived = []  # handles produced by unified/flattened/roundtrip/doc_from
-        self.attrs_used = {}  # rh -> [(attr spec)]
+        self.formals = {}  # rh -> (container, kind, {formal name: value spec})
 
     # -------------------------------------------------------------- helpers
     def fresh(self, pfx):
@@ -430,6 +430,7 @@ class Gen(object):
                 via = "new_record"
         rh = self.fresh("r")
         self.recs[ch].append((rh, kind, idspec is not None))
+        self.formals[rh] = (ch, kind, dict(formal))
         return ["rec", rh, ch, kind, idspec, formal, extra, via, form]
 
     # ------------------------------------------------------------ operations
